@@ -73,7 +73,7 @@ def execute(case, tape):
     return out
 
 
-BUDGET = {"quick": (40000, 60), "thorough": (800000, 900)}
+BUDGET = {"quick": (200000, 75), "thorough": (4000000, 1500)}
 REAL = ["pydcop.algorithms.syncbb", "pydcop.computations_graph.ordered_graph",
         "pydcop.dcop.relations", "pydcop.infrastructure.computations"]
 STUB = ["Agent", "Messaging", "transport", "discovery (replaced by compsim FIFO channel model)"]
